@@ -206,6 +206,10 @@ impl Property for C20 {
         if nlines == 0 && rng.chance(1, 3) {
             input.extend_from_slice(&[sep, sep]); // only empty lines
         }
+        if rng.chance(1, 40) && !input.is_empty() && sep != 0xef && near_strlen.is_none() {
+            // a byte-order mark at the very start: part of the first line like any other text
+            input.splice(0..0, b"\xef\xbb\xbf".iter().copied());
+        }
         sc.input = B(input.clone());
         let planned = nlines + 1;
         sc.outcomes = if rng.chance(1, 2) {
